@@ -25,6 +25,7 @@ CONSTANTS
   Horizon,     \* largest date
   NFlags, NLocks, NQueues, NChans,
   NRes, MaxPools, ResInit, MaxLevel,   \* resource supplies 1..NRes with initial level ResInit; pools incl. shares
+  TickSel,     \* name of the list of tickers the client may iterate (see TickTable)
   CondSel,     \* name of the set of connective expressions the client may await (see CondTable)
   Menu         \* set of client operations enabled in this configuration
 
@@ -78,7 +79,7 @@ StopIter == <<"stopiter">>        \* StopAsyncIteration: an `async for` over a s
 IsInterrupt(x) == x # NoSig /\ x[1] \in {"wk", "cs", "ci", "ct"}
 IsGenExit(x)   == x = GenExit
 \* subclasses of Exception (what a client `except Exception` catches)
-IsException(x) == x # NoSig /\ x[1] \in {"exc", "conc", "tcancelled", "tclosed", "scopeclosed", "streamclosed", "stopiter", "unavailable"}
+IsException(x) == x # NoSig /\ x[1] \in {"exc", "conc", "tcancelled", "tclosed", "scopeclosed", "streamclosed", "stopiter", "unavailable", "exceeded"}
 
 Actv(t, s) == [tgt |-> t, sig |-> s]
 Purge(q, s) == SelectSeq(q, LAMBDA y : y.sig # s)
@@ -132,7 +133,7 @@ Init ==
   /\ future = [t \in Times |-> <<>>]
   /\ act = [a \in Acts |-> [life |-> IF a <= NRoots THEN "new" ELSE "unborn", stack |-> <<>>,
                             ops |-> IF a <= NRoots THEN RootOps ELSE TaskOps, cur |-> NoCur,
-                            iters |-> [c \in Chans |-> 0]]]
+                            iters |-> [c \in Chans |-> 0], tk |-> [i \in 1..4 |-> [on |-> FALSE, last |-> 0]]]]
   /\ run = <<>>
   /\ task = [a \in Acts |-> [scope |-> 0, vol |-> FALSE, res |-> NoSig, done |-> FALSE, ncan |-> 0, delay |-> 0, fin |-> "none"]]
   /\ sc = [s \in Scopes |-> [owner |-> 0, kind |-> "none", open |-> FALSE, inter |-> FALSE,
@@ -1152,6 +1153,53 @@ ResOp ==
   /\ UNCHANGED <<now, future, task, sc, flag, lock, fault>>
 
 ----------------------------------------------------------------------------
+\* TICKERS (usim/_primitives/timing.py): `async for now in interval(p)` / `delay(p)`
+\* A ticker is an async generator; the client advances it one step at a time with the op `tick i`
+\* (slot i of TickTable[TickSel] gives kind and period); between two steps the client runs the loop body.
+\* act[a].tk[i] = [on, last]: generator alive, time of the last tick (interval only)
+TickTable == [
+  none  |-> <<>>,
+  basic |-> <<[kind |-> "interval", p |-> 1], [kind |-> "delay", p |-> 1]>>,
+  mixed |-> <<[kind |-> "interval", p |-> 2], [kind |-> "interval", p |-> 0], [kind |-> "delay", p |-> 0], [kind |-> "delay", p |-> 2]>>
+]
+Tickers == TickTable[TickSel]
+Exceeded == <<"exceeded">>            \* IntervalExceeded
+
+TickStep ==
+  /\ Running /\ Top(A).k = "tick"
+  /\ LET fr == Top(A) i == fr.i IN
+     IF Mode = "exc"
+     THEN \* the generator is finished by the exception
+          /\ act' = [Drop(act, A) EXCEPT ![A].tk[i] = [on |-> FALSE, last |-> 0]] /\ run' = run
+     ELSE \* the pause is over: last_time = time.now; yield last_time
+          /\ act' = [Drop(act, A) EXCEPT ![A].tk[i].last = now]
+          /\ SetRun("ret", <<"val", now>>)
+  /\ ev' = <<>>
+  /\ UNCHANGED <<now, pending, future, task, sc, subs, flag, lock, obj, cnt, fault>>
+
+TickOp ==
+  /\ Running /\ Mode = "ret" /\ User(A) /\ act[A].cur.op = "none" /\ act[A].ops > 0 /\ In("tick")
+  /\ \E i \in 1..Len(Tickers) :
+       LET tk == Tickers[i]
+           st == act[A].tk[i]
+           last == IF st.on THEN st.last ELSE now          \* first step: last_time = time.now
+           ac == [Spend(act) EXCEPT ![A].cur = [op |-> "tick", i |-> i], ![A].tk[i] = [on |-> TRUE, last |-> last]]
+           rem == last + tk.p IN                            \* date of the next tick (interval)
+       /\ ev' = E(B([op |-> "tick", i |-> i, kind |-> tk.kind, p |-> tk.p]))
+       /\ IF tk.kind = "interval" /\ rem < now
+          THEN \* the body took longer than the period
+               /\ act' = [ac EXCEPT ![A].tk[i] = [on |-> FALSE, last |-> 0]]
+               /\ SetRun("exc", Exceeded) /\ UNCHANGED <<pending, future>>
+          ELSE LET due == IF tk.kind = "interval" THEN rem ELSE now + tk.p IN
+               IF due > now
+               THEN /\ due <= Horizon
+                    /\ act' = Push(Push(ac, A, [k |-> "tick", i |-> i]), A, [k |-> "suspend"])
+                    /\ future' = [future EXCEPT ![due] = Append(@, Actv(A, Wk(A, Depth(A) + 2)))]
+                    /\ Hibernate /\ pending' = pending
+               ELSE /\ DoPostpone(Push(ac, A, [k |-> "tick", i |-> i]), pending) /\ future' = future
+  /\ UNCHANGED <<now, task, sc, subs, flag, lock, obj, cnt, fault>>
+
+----------------------------------------------------------------------------
 Keep(Act) == Act /\ UNCHANGED obj        \* the steps above do not touch stream state
 Next ==
   \/ Keep(Deliver) \/ Keep(Advance)
@@ -1164,6 +1212,7 @@ Next ==
   \/ StreamOp \/ QGetStep \/ ChanStep
   \/ CondOp \/ ConnStep \/ DeliverTrigger \/ HibExc
   \/ ResOp \/ BorrowStep \/ BorrowBodyExc \/ DeliverHelper
+  \/ TickOp \/ TickStep
 
 Spec == Init /\ [][Next]_vars
 =============================================================================
